@@ -18,8 +18,8 @@ from simkit.world import World, REAL
 PROP = "C17"
 LEVEL = "exploration"
 TIERS = {
-    "quick": dict(runs=2400, timeout=120, max_ops=22, shrink_seconds=90, shrink_steps=300),
-    "thorough": dict(runs=50000, timeout=180, max_ops=40, shrink_seconds=300, shrink_steps=800),
+    "quick": dict(runs=2400, wall_cap=240, timeout=120, max_ops=22, shrink_seconds=90, shrink_steps=300),
+    "thorough": dict(runs=50000, wall_cap=2700, timeout=180, max_ops=40, shrink_seconds=300, shrink_steps=800),
 }
 
 DIRS = ["", "sub", "sub/deep", "other", "data dir", "sub/ünï", "-opt"]
